@@ -4,8 +4,9 @@
    A level of the stack is the complete visible state (main map + child maps) together with the
    sets of keys the overlay holds an entry for ("touched": written or deleted since the
    outermost transaction started).  The touched sets matter only for the limited operations:
-   Substrate removes every overlay key unconditionally and counts only keys removed from the
-   backend against the limit (Ext::clear_prefix / kill_child_storage / limit_remove_from_backend).
+   Substrate removes every overlay key unconditionally and then visits at most `limit` keys of
+   the backend, in order, deleting those not already deleted
+   (Ext::clear_prefix / kill_child_storage / limit_remove_from_backend).
    Outside any transaction an operation acts on the backend with an empty overlay. *)
 From Common Require Import Bytes.
 From C08 Require Import ModelMap Model.
@@ -28,13 +29,18 @@ Definition touched_child (l : slevel) (name : key) : kset :=
   match om_get name (t_children l) with Some s => s | None => [] end.
 
 (* limit_remove_from_backend over the backend keys (in order): returns the keys newly deleted,
-   the number of keys visited (loops) and whether the iteration ran to the end *)
+   the number of keys visited (loops) and whether the iteration ran to the end.
+   The limit bounds the number of backend keys VISITED (sp-state-machine: `loop_count == limit`;
+   before paritytech/substrate#11490 `num_deleted == limit` with num_deleted incremented for every
+   key visited): a backend key whose deletion is already pending in the overlay is visited,
+   counted against the limit and not deleted again ("not cumulative when called inside the same
+   block", sp-io).  [count] is the number of keys newly deleted (MultiRemovalResults.backend). *)
 Fixpoint remove_from_backend (bkeys : list key) (touched : kset) (limit : option N)
          (count loops : N) (acc : list key) : list key * N * bool :=
   match bkeys with
   | [] => (rev acc, loops, true)
   | k :: r =>
-    if match limit with Some n => count =? n | None => false end
+    if match limit with Some n => loops =? n | None => false end
     then (rev acc, loops, false)
     else if ks_mem k touched
          then remove_from_backend r touched limit count (loops + 1) acc
@@ -48,8 +54,8 @@ Definition spec_clear (cur bk : omap val) (tch : kset) (prefix : key) (limit : o
   (* 1. every overlay key with the prefix is deleted *)
   let ov := filter (has_prefix prefix) (om_keys tch) in
   let cur1 := om_del_list ov cur in
-  (* 2. backend keys with the prefix, in order, up to the limit; keys the overlay already
-        holds an entry for (now all deletions) are skipped but visited *)
+  (* 2. backend keys with the prefix, in order, at most `limit` of them; keys the overlay already
+        holds an entry for (now all deletions) are visited (they count) but not deleted again *)
   let '(del, loops, all) :=
       remove_from_backend (filter (has_prefix prefix) (om_keys bk)) tch limit 0 0 [] in
   (om_del_list del cur1, fold_left (fun s k => ks_add k s) del tch, loops, all).
@@ -96,12 +102,18 @@ Definition sstep (o : op) (s : sstate) : obs * sstate :=
   | ODel k =>
     (RUnit, set_level s (mk_slevel (mk_cstate (om_del k (c_main v)) (c_children v))
                                    (touch_main l k) (t_children l)))
+  (* Ext::clear_prefix: "Refuse to directly clear prefix that is part or contains of child
+     storage key": nothing happens at all *)
   | OClearPrefix p =>
-    let '(m', t', _, _) := spec_clear (c_main v) (c_main (backend s)) (t_main l) p None in
-    (RUnit, set_level s (mk_slevel (mk_cstate m' (c_children v)) t' (t_children l)))
+    if covers_child_keys p then (RUnit, s)
+    else
+      let '(m', t', _, _) := spec_clear (c_main v) (c_main (backend s)) (t_main l) p None in
+      (RUnit, set_level s (mk_slevel (mk_cstate m' (c_children v)) t' (t_children l)))
   | OClearPrefixLimit p n =>
-    let '(m', t', loops, all) := spec_clear (c_main v) (c_main (backend s)) (t_main l) p (Some n) in
-    (RCount loops all, set_level s (mk_slevel (mk_cstate m' (c_children v)) t' (t_children l)))
+    if covers_child_keys p then (RCount 0 true, s)
+    else
+      let '(m', t', loops, all) := spec_clear (c_main v) (c_main (backend s)) (t_main l) p (Some n) in
+      (RCount loops all, set_level s (mk_slevel (mk_cstate m' (c_children v)) t' (t_children l)))
   | ONext k => (RVal (om_next k (c_main v)), s)
   | OEntries => (REntries (c_main v), s)
   | OCSet c k x =>
